@@ -157,60 +157,8 @@ theorem hll_convert_preserves (p : Params) (s : St ν) (tt : TType)
 /-- Emptiness is reported exactly: `is_empty()` holds iff no (nonzero) coupon was ever offered. -/
 theorem hll_empty_iff (p : Params) (hp : p.listFitsSet) (lgK : Nat) (tt : TType) (sf : Bool) (cs : List Nat)
     (hv : ∀ c ∈ cs, c ≠ 0 → 0 < cValue p c) :
-    isEmpty (run p (newSketch p lgK tt sf : St ν) cs) = true ↔ ∀ c ∈ cs, c = 0 := by
-  -- in HLL mode: empty iff every register is zero iff no nonzero coupon was offered
-  have hllcase : ∀ (s : St ν), s.lgK = lgK → s.mode = .hll → HInv p s (fun c => c ∈ cs ∧ c ≠ 0) →
-      (isEmpty s = true ↔ ∀ c ∈ cs, c = 0) := by
-    intro s hk hm H
-    rw [isEmpty_hll_iff H hm]
-    constructor
-    · intro hz c hc
-      apply Classical.byContradiction
-      intro h0
-      have hsl := cSlot_lt p s.lgK c
-      have := (H.regs _ hsl).1 c ⟨hc, h0⟩ rfl
-      rw [hz _ hsl] at this
-      have := hv c hc h0
-      omega
-    · intro hall slot hs
-      rcases (H.regs slot hs).2 with h0 | ⟨c, hc, _, _⟩
-      · exact h0
-      · exact absurd (hall c hc.1) hc.2
-  cases sf with
-  | true =>
-    have h := run_startFull p cs (s := (newHll lgK tt true : St ν)) (cs := []) rfl
-      (by have := HInv.newHll (ν := ν) p lgK tt true
-          exact ⟨this.size, fun slot hs => IsMaxAt.congr (by simp) (this.regs slot hs), this.cm_le, this.cnt4, this.cnt68⟩)
-    simp only [List.nil_append] at h
-    exact hllcase _ h.2.1 h.1 h.2.2.2
-  | false =>
-    have h := RInv.run hp cs (RInv.init (ν := ν) p lgK tt)
-    simp only [List.nil_append] at h
-    change RInv p lgK (run p (newSketch p lgK tt false) cs) cs at h
-    generalize run p (newSketch p lgK tt false : St ν) cs = s at h ⊢
-    by_cases hm : s.mode = .hll
-    · exact hllcase s h.lgK_eq hm (h.hll hm)
-    · have hperm := h.items_perm hm
-      have hie : isEmpty s = true ↔ s.items.length = 0 := by
-        unfold isEmpty
-        cases hmm : s.mode with
-        | hll => exact absurd hmm hm
-        | list => simp
-        | set => simp
-      rw [hie, hperm.length_eq]
-      constructor
-      · intro hl c hc
-        apply Classical.byContradiction
-        intro h0
-        have : c ∈ distinct cs := mem_distinct.2 ⟨hc, h0⟩
-        rw [List.length_eq_zero_iff] at hl
-        rw [hl] at this
-        simp at this
-      · intro hall
-        rw [List.length_eq_zero_iff, List.eq_nil_iff_forall_not_mem]
-        intro c hc
-        have := mem_distinct.1 hc
-        exact this.2 (hall c this.1)
+    isEmpty (run p (newSketch p lgK tt sf : St ν) cs) = true ↔ ∀ c ∈ cs, c = 0 :=
+  isEmpty_run_iff p hp lgK tt sf cs hv
 
 /-! ## L2: the concrete register arrays refine the per-slot-max abstraction -/
 
